@@ -1501,6 +1501,10 @@ def retype_list(eng, st, o, decl):
         o.items, o.length, o.elem_t, o.rep = None, 0, et, V.fresh_rep(et, "typed")
       return
     return
+  # only a list that IS [None] * n (constant-None representation) is retyped; any other list assigned to the variable
+  # (a callee's result, a copy) keeps its contents
+  if not (isinstance(o.rep, tuple) and o.rep[0] == "opt" and z3.is_K(o.rep[1]) and z3.is_true(o.rep[1].arg(0))):
+    return
   # symbolic list of Nones: constant-None representation of the declared optional type
   if isinstance(o.rep, tuple) and o.rep[0] == "opt" and isinstance(et, tuple) and et[0] == "opt":
     o.elem_t = et
